@@ -162,10 +162,14 @@ def run_pipeline(case):
     seen = []
     orig = np.random.choice
 
+    drawn = []
+
     def spy(a, size=None, replace=True, p=None):
+        r = orig(a, size, replace, p)
         if replace is False:
             seen.append((len(a), None if p is None else [float(x) for x in p]))
-        return orig(a, size, replace, p)
+            drawn.append([int(x) for x in r])
+        return r
     np.random.choice = spy
     try:
         outdir = genargs.fresh_outdir()
@@ -181,6 +185,17 @@ def run_pipeline(case):
     if len(seen) != v['n1'] * v['numinst']:
         raise Violation('pipeline_draws', '%d preference lists requested, %d weighted draws '
                         'without replacement observed' % (v['n1'] * v['numinst'], len(seen)))
+    # the lists that were drawn with those weights are the lists that are written: entry order
+    # (who was drawn first) included
+    for idx, text in enumerate(genargs.read_outputs(outdir, v['numinst'])):
+        rows = text.split('\n')[1:1 + v['n1']]
+        for i, row in enumerate(rows):
+            got = [int(t.strip('()')) for t in row.split()[1:] if t.strip('()').isdigit()]
+            want = drawn[idx * v['n1'] + i]
+            if got != want:
+                raise Violation('pipeline_list_changed', 'instance %d, first-side agent %d: the '
+                                'list drawn with the popularity weights was %r, the file has %r'
+                                % (idx, i + 1, want, got))
     for na, p in seen:
         if p is None:
             raise Violation('pipeline_unweighted', 'preference list drawn without popularity '
